@@ -76,6 +76,10 @@ def runPcFlt (n rank : Nat) (tol : Rat) (ms : List (Array (Array Rat))) : String
   let (m, ss) := run fltPrim As rank (ratToFloat tol)
   s!"m={m} inexact=0 # " ++ " # ".intercalate (ss.map fun s => showMember showF s m)
 
+/-- Strict copy of a matrix into arrays (so that later reads are O(1)). -/
+def toArrs {n m : Nat} (A : Mat Float n m) : Array (Array Float) :=
+  Array.ofFn fun i : Fin n => Array.ofFn fun j : Fin m => A i j
+
 def runPre (kind : String) (noise : List Rat) (l q r x : Array (Array Rat)) : String :=
   let n := l.size
   let k := r.size
@@ -88,13 +92,15 @@ def runPre (kind : String) (noise : List Rat) (l q r x : Array (Array Rat)) : St
   let nz := noise.toArray.map ratToFloat
   if kind = "const" then
     let s := nz[0]!
-    let qc := tab (qCacheConst Q)
+    let qa := toArrs (qCacheConst Q)
+    let qc : Mat Float n k := Mat.ofArrays n k qa
     let d : Fin n → Float := fun _ => s
     s!"qrin={showMatF (qrInputConst fltPrim L s)} q={showMatF qc} closure={showMatF (closureConst qc s X)} " ++
     s!"logdet={showF (logdetConst fltPrim R s (Float.ofNat n - Float.ofNat k))} lt={showMatF (precondLt L d)}"
   else
     let d : Fin n → Float := fun i => nz[i.1]!
-    let qc := tab (qCacheNonconst fltPrim Q d)
+    let qa := toArrs (qCacheNonconst fltPrim Q d)
+    let qc : Mat Float n k := Mat.ofArrays n k qa
     s!"qrin={showMatF (qrInputNonconst fltPrim L d)} q={showMatF qc} closure={showMatF (closureNonconst qc d X)} " ++
     s!"logdet={showF (logdetNonconst fltPrim R d)} lt={showMatF (precondLt L d)}"
 
